@@ -34,6 +34,10 @@
                           `<x>.detail = <x>.detail or ""` / an f-string / a string constant.  Anything else (str.join element,
                           concatenation, slicing, method call, positional argument, alias assignment) makes the fact false.
 
+  gen_ctype_dispatch      _get_document picks the media type as Norm.content_type_of does: `.split(";")[0]` is applied only to
+                          `response.headers["content-type"]` inside `if "content-type" in response.headers:`; the else branch assigns
+                          mimetypes.guess_type(source...)[0] as it is (it may be None); no other method call on a possibly-None media type
+
 Fail closed: a shape this script cannot recognise is emitted as false (the theorem CliThm.code_shape then no longer checks);
 a file that cannot be parsed makes the script exit 1."""
 import ast, os, sys
@@ -463,6 +467,37 @@ def fact_kind_guards():
     return seen_sites >= 2
 
 
+def fact_ctype_dispatch():
+    fn = find_func(parse("__init__.py"), "_get_document")
+    if fn is None:
+        return False
+    par = _parents(fn)
+    ifs = [x for x in ast.walk(fn) if isinstance(x, ast.If) and u(x.test) in ("'content-type' in response.headers", '"content-type" in response.headers')]
+    if len(ifs) != 1:
+        return False
+    node = ifs[0]
+    guarded = set()
+    for st in node.body:
+        for x in ast.walk(st):
+            guarded.add(id(x))
+    # every method call / subscript-of-call on the header value or on content_type must be inside the guarded body
+    for x in ast.walk(fn):
+        if isinstance(x, ast.Call) and isinstance(x.func, ast.Attribute) and x.func.attr in ("split", "partition", "strip", "lower", "startswith", "rsplit", "casefold"):
+            recv = u(x.func.value)
+            if "content" in recv or "headers" in recv or "guess_type" in recv or "mimetypes" in recv:
+                if id(x) not in guarded or recv not in ("response.headers['content-type']", 'response.headers["content-type"]'):
+                    return False
+        if isinstance(x, ast.Call) and u(x.func) in ("response.headers.get", "response.headers.pop", "response.headers.setdefault"):
+            return False        # a default value (possibly None) merged into the header lookup: not the recognised shape
+    body_ok = len(node.body) == 1 and u(node.body[0]) in ("content_type = response.headers['content-type'].split(';')[0]",)
+    else_ok = len(node.orelse) == 1 and isinstance(node.orelse[0], ast.Assign) and u(node.orelse[0].targets[0]) == "content_type" \
+        and u(node.orelse[0].value).startswith("mimetypes.guess_type(source") and u(node.orelse[0].value).endswith("[0]")
+    # the file branch: guess from the path's URI, unsplit
+    file_ok = any(isinstance(x, ast.Assign) and u(x.targets[0]) == "content_type" and u(x.value).startswith("mimetypes.guess_type(source.absolute().as_uri()") for x in ast.walk(fn))
+    ret_ok = isinstance(fn.body[-1], ast.Return) and u(fn.body[-1].value) == "_load_yaml_or_json(yaml_bytes, content_type)"
+    return bool(body_ok and else_ok and file_ok and ret_ok)
+
+
 def _parents(tree):
     par = {}
     for n in ast.walk(tree):
@@ -592,7 +627,8 @@ def main():
                  "; ".join(f"({cstr(n)}, {b(fact_retry_loop(rel, n))})" for rel, n in LOOPS), ", ".join(n for _, n in LOOPS)),
              f"Definition gen_body_ref_guard : bool := {b(fact_body_ref_guard())}.",
              f"Definition gen_kind_guards : bool := {b(fact_kind_guards())}.",
-             f"Definition gen_detail_none_safe : bool := {b(fact_detail_none_safe())}."]
+             f"Definition gen_detail_none_safe : bool := {b(fact_detail_none_safe())}.",
+             f"Definition gen_ctype_dispatch : bool := {b(fact_ctype_dispatch())}."]
     txt = "\n".join(lines) + "\n"
     os.makedirs(os.path.dirname(OUT), exist_ok=True)
     old = None
